@@ -55,6 +55,15 @@ class Recorder:
     def _exc(self, rec, ex):
         rec["exc"] = type(ex).__name__
         rec["excmsg"] = str(ex)[:200]
+        # the options the wrapper had chosen when quimb raised (for the evidence / replays only)
+        tb = ex.__traceback__
+        while tb is not None:
+            if tb.tb_frame.f_code.co_filename.endswith("c13_util.py"):
+                loc = tb.tb_frame.f_locals
+                got = [("%s=%s" % (k, loc[k]))[:160] for k in ("desc", "d", "kw", "kw2", "how", "get", "mode") if k in loc and k != "gauges"]
+                if got:
+                    rec["opts"] = ";".join(got).replace("array(", "(")[:300]
+            tb = tb.tb_next
         self._count(rec["route"], "raised")
 
     # ------------------------------------------------------------------ scalar routes
